@@ -15,7 +15,8 @@ Not covered by these theorems (trusted base §5.4): IEEE rounding.  The implemen
 not outwards; the exact oracle measures the resulting escape on every run.
 -/
 import Rooc.BoundsSem
-import Rooc.Proofs.BoundsFrame
+import Rooc.Proofs.BoundsNoNaN
+import Rooc.Compile
 namespace Rooc.Props.C07
 open Rooc Rooc.BoundsSem Rooc.BoundsProofs Rooc.Sem
 
@@ -44,6 +45,21 @@ theorem infinite_coefficient_range_contains_nothing (v : K) :
   refine ⟨?_, fun ρ => by simp [eval]⟩
   simp [Analyzer.boundsOf, Exp.asNum, Analyzer.varBounds, AList.get?, Bounds.scale, Ext.eq, Ext.lt, Ext.mul, Ext.sign,
     Ext.sgn, Ext.ofSign, mem_iff]
+
+/-- `no_nan`: with finite literals and a NaN-free box, `bounds_of` never has a NaN endpoint (the infinite
+sums are repaired by `lower_sum`/`upper_sum`, `0 · c` is special-cased, a finite non-zero coefficient
+times ±inf is ±inf). -/
+theorem boundsOf_no_nan (vb : List (String × Bounds (Ext K))) (e : Exp (Ext K))
+    (hbox : ∀ name, NoNaN (Analyzer.varBounds vb name)) (hlit : finiteLits e = true) :
+    NoNaN (Analyzer.boundsOf vb e) :=
+  boundsOf_noNaN vb hbox e hlit
+
+example : ∃ (vb : List (String × Bounds (Ext K))) (e : Exp (Ext K)),
+    (∀ name, NoNaN (Analyzer.varBounds vb name)) ∧ finiteLits e = true :=
+  ⟨[("x", ⟨.ninf, .pinf⟩)], .bin .sub (.var "x") (.var "x"), by
+    intro n
+    by_cases h : "x" = n <;> simp [Analyzer.varBounds, AList.get?, h, NoNaN, Bounds.unbounded, Ext.isNaN], by
+    simp [finiteLits]⟩
 
 /-! ### intersection with tolerance -/
 
@@ -92,9 +108,11 @@ theorem tightenAffine_sound (ρ : String → K) (an : Analyzer (Ext K)) (c : Con
   exact tightenAffineForm_inBox an f c.cmp S h1 h2 hbox
 
 example : ∃ (ρ : String → K) (c : Constraint (Ext K)) (f : AffineForm (Ext K)),
-    AffineForm.fromConstraint c = some f ∧ Holds ρ c :=
-  ⟨fun _ => 1, ⟨"r", .bin .mul (.num (.fin 3)) (.var "x"), .le, .num (.fin 4), false⟩, _, rfl,
-   3, 4, by simp [eval, binVal], by simp [eval], by simp [cmpHolds]; norm_num⟩
+    AffineForm.fromConstraint c = some f ∧ Holds ρ c := by
+  refine ⟨fun _ => 1, ⟨"r", .bin .mul (.num (.fin 3)) (.var "x"), .le, .num (.fin 4), false⟩,
+    ⟨[("x", .fin 3)], .fin (-4)⟩, ?_, 3, 4, by simp [eval, binVal], by simp [eval], by simp [cmpHolds]; norm_num⟩
+  simp [AffineForm.fromConstraint, AffineForm.fromExp, Exp.asNum, AffineForm.scale, AffineForm.scaleCoeffs,
+    AffineForm.merge, AffineForm.mergeCoeffs, Ext.mul, Ext.add, Ext.neg, Ext.eq, Ext.isFinite]
 
 /-! ### the work-list -/
 
@@ -179,6 +197,19 @@ theorem applyToDomain_negative_tolerance_counterexample :
     have : n = 0 := by exact_mod_cast this
     omega
 
+/-- `enforceable` (the declared box is sound; otherwise the analyzer is unchanged). -/
+theorem enforceable_sound (ρ : String → K) (an : Analyzer (Ext K)) (domain : List (DomVar (Ext K)))
+    (hd : ∀ d ∈ domain, InDomain d.ty (ρ d.name)) (hbox : InBox ρ an.variableBounds) :
+    InBox ρ (an.enforceable domain).variableBounds := by
+  unfold Analyzer.enforceable
+  split
+  · exact fromDomain_inBox domain an.tolerance hd
+  · exact hbox
+
+/-- the copy of `enforceable` in the pipeline model is the same function. -/
+theorem compile_enforceable_eq (an : Analyzer (Ext K)) (domain : List (DomVar (Ext K))) :
+    Compile.enforceable an domain = an.enforceable domain := rfl
+
 /-! ### the report of the hook (what the compiler publishes) -/
 
 /-- End to end, for the function the harness observes (`verif_hooks::analyze_bounds`): at every
@@ -214,6 +245,30 @@ theorem analyzeBounds_sound (domain : List (DomVar (Ext K))) (cs : List (Constra
       simp
     rw [← hq']
     exact boundsOf_encloses _ ρ _ v hbox hv
+  · exact applyToDomain_sound ρ _ domain tol htol htol0 hi32 hbox hρ.1
+
+/-- The same for what `Linearizer::linearize` itself uses (`verif_hooks::linearizer_bounds`: analysis of the
+normalised constraints, `enforceable`, `apply_to_domain`): every published variable range and every
+tightened domain contains the value of the variable at every assignment that is in the declared domains
+and satisfies the normalised constraints — in particular when the analysis found the model infeasible or
+stopped at its step limit.  (That an assignment satisfying the SOURCE constraints satisfies the normalised
+ones is C10: value preservation of `simplify` / `flatten`.) -/
+theorem linearizerBounds_sound (domain : List (DomVar (Ext K))) (normalized : List (Constraint (Ext K)))
+    (tol : K) (maxSteps : Nat) (htol0 : 0 ≤ tol)
+    (hi32 : ∀ d ∈ domain, ∀ lo hi, d.ty = .int lo hi → i32Min ≤ lo ∧ hi ≤ i32Max)
+    (ρ : String → K) (hρ : SrcFeasible domain normalized ρ) :
+    let r := linearizerBounds domain normalized (.fin tol) maxSteps
+    (∀ p ∈ r.variables, Mem (ρ p.1) p.2) ∧ (∀ d' ∈ r.domain, InDomain d'.ty (ρ d'.name)) := by
+  have hbox := enforceable_sound ρ _ domain hρ.1 (analyze_sound domain normalized (.fin tol) maxSteps ρ hρ)
+  have htol : ((Analyzer.analyze domain normalized (.fin tol) maxSteps).enforceable domain).tolerance = .fin tol := by
+    rw [enforceable_tol]
+    unfold Analyzer.analyze Analyzer.propagate
+    exact propagateLoop_tolerance _ _ _ _ _ _ _
+  refine ⟨?_, ?_⟩
+  · intro p hp
+    simp only [linearizerBounds, List.mem_map] at hp
+    obtain ⟨d, _, rfl⟩ := hp
+    exact boundsOf_encloses _ ρ (.var d.name) _ hbox (by simp [eval])
   · exact applyToDomain_sound ρ _ domain tol htol htol0 hi32 hbox hρ.1
 
 end Rooc.Props.C07
